@@ -492,7 +492,8 @@ RECURSIVE Rep(_, _)
 Rep(ts, n) == IF n = 0 THEN <<>> ELSE ts \o Rep(ts, n - 1)
 KV(k, v) == [k |-> k, v |-> v]
 StressKinds == {"parens", "calls", "index", "signs", "joins", "open", "close", "brack", "pipes", "ops", "chain",
-                "in", "commas", "semis", "lets", "mixed", "errtok", "inopen", "joinopen", "crossparen", "crossbrack", "crosscall"}
+                "in", "commas", "semis", "lets", "mixed", "errtok", "inopen", "joinopen", "crossparen", "crossbrack", "crosscall",
+                "extcalls", "sumcalls", "extin", "batchjoins", "extparens"}
 StressDepths == IF Bound <= 1 THEN {1, 2, 3, 8} ELSE {1, 3, 17, 120, Bound}
 StressChoices(c) == CASE Len(c) = 0 -> StressKinds [] Len(c) = 1 -> StressDepths [] OTHER -> {}
 Head2 == <<KV("Identifier", "T"), KV("Pipe", ""), KV("Identifier", "where")>>
@@ -522,6 +523,19 @@ StressToks(c) ==
     [] c[1] = "crossbrack" -> Head2 \o <<A>> \o Rep(<<KV("LBracket", "")>>, n) \o <<KV("Number", "1")>> \o Rep(<<KV("RParen", "")>>, n)
     [] c[1] = "crosscall" -> Head2 \o Rep(<<KV("Identifier", "f"), KV("LParen", ""), A, KV("LBracket", "")>>, n) \o <<KV("Number", "1")>>
                              \o Rep(<<KV("RParen", ""), KV("RBracket", "")>>, n)
+    \* deep nests in the positions whose source text / span the compiler needs (unnamed columns, second query)
+    [] c[1] = "extcalls" -> <<KV("Identifier", "T"), KV("Pipe", ""), KV("Identifier", "extend")>>
+                            \o Rep(<<KV("Identifier", "f"), KV("LParen", "")>>, n) \o <<A>> \o Rep(<<KV("RParen", "")>>, n)
+    [] c[1] = "sumcalls" -> <<KV("Identifier", "T"), KV("Pipe", ""), KV("Identifier", "summarize")>>
+                            \o Rep(<<KV("Identifier", "f"), KV("LParen", "")>>, n) \o <<A>> \o Rep(<<KV("RParen", "")>>, n)
+                            \o <<KV("By", ""), KV("Identifier", "k")>>
+    [] c[1] = "extin" -> <<KV("Identifier", "T"), KV("Pipe", ""), KV("Identifier", "extend")>>
+                         \o Rep(<<A, KV("In", ""), KV("LParen", "")>>, n) \o <<KV("Number", "1")>> \o Rep(<<KV("RParen", "")>>, n)
+    [] c[1] = "extparens" -> <<KV("Identifier", "T"), KV("Pipe", ""), KV("Identifier", "extend")>>
+                             \o Rep(<<KV("LParen", "")>>, n) \o <<A>> \o Rep(<<KV("RParen", "")>>, n)
+    [] c[1] = "batchjoins" -> <<KV("Identifier", "Q"), KV("Semi", ""), KV("Identifier", "T")>>
+                              \o Rep(<<KV("Pipe", ""), KV("Identifier", "join"), KV("LParen", ""), KV("Identifier", "B")>>, n)
+                              \o Rep(<<KV("RParen", ""), KV("Identifier", "on"), KV("Identifier", "k")>>, n)
     [] c[1] = "errtok" -> Head2 \o Rep(<<KV("Raw", "!"), KV("Raw", "'x")>>, n)
     [] c[1] = "inopen" -> Head2 \o Rep(<<A, KV("In", "")>>, n)
     [] c[1] = "joinopen" -> <<KV("Identifier", "T")>> \o Rep(<<KV("Pipe", ""), KV("Identifier", "join"), KV("LParen", ""), KV("Identifier", "B")>>, n)
@@ -576,12 +590,15 @@ UseExpr(u) ==
     [] u = "fname" -> Call("n", <<Num("1")>>)
     [] u = "const" -> Bin("And", Col("true"), Bin("Eq", Col("a"), n))
 ScopePositions == {"where", "project", "extendNamed", "sumAgg", "sort", "take", "topN", "topBy", "joinOn2", "arg"}
+\* shorthand columns: the bound name written alone where a column may be named without `=`
+BarePositions == {"projectBare", "extendBare", "sumKeyBare", "sumAggBare"}
 
 ScopeChoices(c) ==
   CASE Len(c) = 0 -> ScopeSetups
     [] Len(c) = 1 -> ShapesFor(c[1])
     [] Len(c) = 2 -> ScopeUses
-    [] Len(c) = 3 -> IF c[3] \in {"bare", "neg", "eq"} THEN ScopePositions ELSE {"where"}
+    [] Len(c) = 3 -> IF c[3] = "bare" THEN ScopePositions \cup BarePositions
+                     ELSE IF c[3] \in {"neg", "eq"} THEN ScopePositions ELSE {"where"}
     [] OTHER -> {}
 ScopeQuery(c) ==
   LET e == Canon(UseExpr(c[3])) IN
@@ -595,6 +612,10 @@ ScopeQuery(c) ==
     [] c[4] = "topBy" -> Tab("T", <<Top(Num("3"), TermD(e))>>)
     [] c[4] = "joinOn2" -> Tab("T", <<Join(Id("inner"), Tab("B", <<>>), <<Col("k"), Canon(Bin("Eq", Qual("$left", "a"), e))>>)>>)
     [] c[4] = "arg" -> Tab("T", <<Where(Call("g", <<Num("1"), e>>))>>)
+    [] c[4] = "projectBare" -> Tab("T", <<Project(<<PCol("n", None), PCol("q", None)>>)>>)
+    [] c[4] = "extendBare" -> Tab("T", <<Extend(<<ECol(None, e), ECol(Id("q"), Col("b"))>>)>>)
+    [] c[4] = "sumKeyBare" -> Tab("T", <<Summarize(<<ECol(None, Call("count", <<>>))>>, <<ECol(None, e)>>, FALSE)>>)
+    [] c[4] = "sumAggBare" -> Tab("T", <<Summarize(<<ECol(None, e)>>, <<ECol(None, Col("b"))>>, FALSE)>>)
 \* the expression whose value is compared, per position (sum(e) for sumAgg, the whole condition for joinOn2)
 ScopeExpr(c) ==
   LET e == Canon(UseExpr(c[3])) IN
@@ -706,8 +727,10 @@ CorruptToks(c) ==
       ts == Strip(Toks(BuildOf(BaseFamily, SubSeq(c, 1, bl))))
       e == SubSeq(c, bl + 1, Len(c))
       n == Len(ts)
-      i == e[2]
-  IN CASE e[1] = "del" -> SubSeq(ts, 1, i - 1) \o SubSeq(ts, i + 1, n)
+      i == IF Len(e) >= 2 THEN e[2] ELSE 0
+  IN IF Len(e) < 2 THEN ts      \* no position to edit (empty or one-token base): the base itself
+     ELSE
+     CASE e[1] = "del" -> SubSeq(ts, 1, i - 1) \o SubSeq(ts, i + 1, n)
        [] e[1] = "dup" -> SubSeq(ts, 1, i) \o SubSeq(ts, i, n)
        [] e[1] = "swap" -> SubSeq(ts, 1, i - 1) \o <<ts[i + 1], ts[i]>> \o SubSeq(ts, i + 2, n)
        [] e[1] = "trunc" -> SubSeq(ts, 1, i)
